@@ -21,7 +21,7 @@ type treeEntry struct {
 }
 
 var (
-	c15DirNames  = []string{"pkg", "internal", "cmd", "vendor", "testdata", ".git", "_tools", "sub", "x.go", "a", "b", "_", ".hidden", "vendored", "Testdata", "mytestdata"}
+	c15DirNames  = []string{"pkg", "internal", "cmd", "vendor", "testdata", ".git", "_tools", "sub", "x.go", "a", "b", "_", ".hidden", "vendored", "Testdata", "mytestdata", ".go", "_legacy.go", ".cache.go", "vendor.go"}
 	c15FileNames = []string{"main.go", "a.go", "b_test.go", ".hidden.go", "_under.go", "README.md", "go.mod", "x.go.txt", "gen.go", "z.GO", "go", "c.go", "sp ace.go", "\u00fcn\u00ef.go", "a.go.go", ".go", "x.go~", "#x.go#", "x_test.go"}
 )
 
